@@ -110,10 +110,24 @@ func (conn *obfs4Conn) makePacket(w io.Writer, pktType uint8, data []byte, padLe
 }
 
 func (conn *obfs4Conn) readPackets() error {
+	// Data that is already buffered (eg: payload that arrived in the same
+	// segment as the server handshake) must be processed before blocking on
+	// the network, as the peer may be waiting for a response to it.
+	if conn.receiveBuffer.Len() > 0 {
+		err := conn.processPackets(nil)
+		if conn.receiveDecodedBuffer.Len() > 0 || (err != nil && !errors.Is(err, framing.ErrAgain)) {
+			return err
+		}
+	}
+
 	// Attempt to read off the network.
 	rdLen, rdErr := conn.Conn.Read(conn.readBuffer)
 	conn.receiveBuffer.Write(conn.readBuffer[:rdLen])
 
+	return conn.processPackets(rdErr)
+}
+
+func (conn *obfs4Conn) processPackets(rdErr error) error {
 	var (
 		decoded [framing.MaximumFramePayloadLength]byte
 		err     error
